@@ -49,7 +49,7 @@ LEVEL_TEXT = ("C20_weights_match_balance (full: for days with ascending dates --
               "journal's first day), C20_weight_def, C20_group_sum, C20_top_100, C20_every_period (repaired wiring; "
               "C20_every_period_refuted for the pinned returns.go), C20_external_flows_zero (full, repaired flow filter: for every run of "
               "`portfolio returns`, every stretch of Performance records whose valued days carry only untargeted transactions -- no "
-              "@performance, no value adjustment -- satisfies V1 = V0 + inflow + outflow day by day and reports 0 or an undefined number; "
+              "@performance, no value adjustment -- satisfies V1 = V0 + inflow + outflow day by day and reports 0 or an undefined number, C20_external_flows_zero_line: that number is the line printed for the period end; "
               "_refuted for the pinned flow filter), C20_no_flow_ratio: Coq theorems over Q for every journal and configuration, closed "
               "under the global context; Examples C20_w5_deposit_period / C20_w5_weights_values (hypotheses hold of a journal with a "
               "deposit-only February and unchanged prices).  "
